@@ -220,7 +220,8 @@ def main():
         if mt in ('err:opaque', 'err:range'):
             cnt('abstain:toC-' + mt[4:]); skipC = True
         elif mt != ht: fail('type'); continue
-        elif mm.get('toC') != hh.get('toC'): fail('toC'); continue
+        elif mm.get('toC') != hh.get('toC'):
+            fail('toC'); skipC = True      # the implementation-side checks below (compiled vs interpreter, meaning) still run
         else: cnt('toC:' + ('err' if mt == 'err' else 'same'))
         mcomp = (mm.get('compiled') or '').split()
         if 'err:int-trunc' in mcomp or 'err:int-div0' in mcomp:
